@@ -49,7 +49,7 @@ PROPS = {
         partial=['projection lemma machine -> open lock model is not proved (tied by correspondence only)'],
     ),
     'C10': dict(
-        gen=['Stream', 'Lock'], props=['C10', 'C09', 'MachineObjects'], model=['Prim/Stream', 'Prim/Lock', 'Machine/Run', 'Judge/Judges', 'Lemmas/KView', 'Lemmas/OView', 'Lemmas/OStepFrames', 'Lemmas/OStep'], harness='c10',
+        gen=['Stream', 'Lock'], props=['C10', 'C09', 'MachineObjects', 'MachineQueue'], model=['Prim/Stream', 'Prim/Lock', 'Machine/Run', 'Judge/Judges', 'Lemmas/KView', 'Lemmas/OView', 'Lemmas/OStepFrames', 'Lemmas/OStep'], harness='c10',
         trusted_base=KERNEL_TB + MACHINE_TB + [
             'shape templates (exact AST match, else broken obligation): Queue.put/_await_message/close/__aiter__/__await__ and the lock methods',
         ],
@@ -57,7 +57,7 @@ PROPS = {
                      'code touches the buffer only in put/popleft is pinned by the templates and checked by the exact trace correspondence',
                      'receiver order follows from the read mutex (C09 theorems are part of this check)'],
         partial=['receivers_fifo is inherited from the lock theorems (designation_is_head), not restated on the queue model',
-                 'Props/MachineObjects.lean proves on the whole machine, for every program and every number of steps, that a closed queue stays closed and that its buffer is from then on a suffix of what it was (closed_queue_forever: nothing is stored after close, items leave from the front) and that every queue is FIFO (queue_fifo_forever: after any number of steps the buffer is what it was minus items at the front plus items at the back); that the machine refines the open queue model step by step is not proved (tied by correspondence)'],
+                 'Props/MachineObjects.lean proves on the whole machine, for every program and every number of steps, that a closed queue stays closed and that its buffer is from then on a suffix of what it was (closed_queue_forever: nothing is stored after close, items leave from the front) and that every queue is FIFO (queue_fifo_forever: after any number of steps the buffer is what it was minus items at the front plus items at the back); that each piece of the machines queue code is the open models transition is proved (Props/MachineQueue.lean); that nothing else in the machine touches a buffer except at its two ends is queue_fifo_forever; the histories (accepted / received) of the open model are not part of a world: which put and which receive an item belongs to is judged on traces'],
     ),
     'C11': dict(
         gen=['Stream'], props=['C11', 'MachineObjects'], model=['Prim/Stream', 'Machine/Run', 'Judge/Judges', 'Lemmas/KView', 'Lemmas/OView', 'Lemmas/OStepFrames', 'Lemmas/OStep'], harness='c11',
@@ -299,7 +299,7 @@ MANIFEST_TEXT = {
         technique='Lean 4 invariant proof over all action sequences + exact whole-machine differential traces + Lean trace judge',
         design_ref='6 (C09), 3, 4.B'),
     'C10': dict(
-        level='On the whole machine, for every program and every number of steps: closed_queue_forever, queue_fifo_forever, queue_identity (Props/MachineObjects.lean). Lean 4 theorems over an open queue model for every sequence of put / completed receive / close / arbitrary abort actions: '
+        level='The queue code of the whole machine refines the open queue model, transition by transition, for every world (Props/MachineQueue.lean: qPut_refines = put, qClose_refines = close, qGetPop_refines = pop, qGetPop_eq: the popped head is the value handed to the receiver). On the whole machine, for every program and every number of steps: closed_queue_forever, queue_fifo_forever, queue_identity (Props/MachineObjects.lean). Lean 4 theorems over an open queue model for every sequence of put / completed receive / close / arbitrary abort actions: '
               'exactly_once_in_order (received ++ buffered = accepted as sequences), abort_preserves, put_on_closed, closed_stays, '
               'buffered_still_received; receiver order from the lock theorems of C09 (read mutex). Tied to streams.py by regenerated '
               'templates; the executable whole-machine model (queue + mutex + notification + kernel) reproduces the real usim to the '
